@@ -12,7 +12,7 @@ The theorems are about `Gsu.Ck.step`, the executable mirror of `db19/check.go` t
 sequence, every visiting order of `bytable[table]` and every outcome of the coin in `abort1of`
 (both are arguments of the operations).  Helper lemmas: `Gsu/Proofs/Ck.lean`.
 -/
-import Gsu.Proofs.Ck
+import Gsu.Proofs.CkLog
 import Gsu.Gen.Check
 namespace Gsu.Props.C01
 open Gsu.Ck
@@ -39,19 +39,33 @@ theorem ck_first_committer (ops : List Op) (A B : Tran)
   have h2 := i.rcNoUpd A hA h1
   rw [hupd] at h2; simp at h2
 
-/-- `ck_serializable` (state form; see the note below for what is not lifted to a ghost history):
-when an update transaction `T` commits — `T` active with updates in a reachable state `s` — no
-write key of any committed `T'` still held by the checker with `T.start < T'.end` lies in a read
-range of `T` on the same table and index.
+/-- `ck_serializable`: over the ghost history of ALL committed update transactions
+(`runG` = the executed `step` plus a log entry `logOf T end` at every successful commit of a
+transaction with updates — final read ranges and write keys, which the code itself forgets):
+for committed `T`, `T'` with `T.start < T'.end < T.end`, no write key of `T'` on a table and index
+lies in a read range of `T` on the same table and index.  Hence replaying `T`'s reads on the state
+after all earlier commits returns what `T` saw. -/
+theorem ck_serializable (ops : List Op) (T T' : Logged)
+    (hT : T ∈ (runG ({}, []) ops).2) (hT' : T' ∈ (runG ({}, []) ops).2)
+    (h1 : T.start < T'.end_) (h2 : T'.end_ < T.end_)
+    (tbl idx : Nat) (f t k : Key) (hr : (tbl, idx, f, t) ∈ T.reads) (hw : (tbl, idx, k) ∈ T'.writes) :
+    inRange f t k = false :=
+  (runG_inv ops ({}, []) inv_init logInv_init).ser T hT T' hT' h1 h2 tbl idx f t k hr hw
 
-Full statement of the design: for the ghost log of all committed update transactions,
-`T.start < T'.end < T.end` implies that no write key of `T'` is in a read range of `T`.
-Missing for the lift: a ghost-log invariant carried through every operation
-("every logged `T'` with `T'.end >` some active start is still in `cmtdTran` with its writes").
-The two facts it rests on are proved: this theorem, and `ck_retained` (frame steps —
-abort, `cleanEnded`, conflict resolution — drop a committed transaction only when its end is
-below every remaining active start). -/
-theorem ck_serializable_partial (ops : List Op) (T T' : Tran) (e : Nat)
+/-- the ghost run executes exactly the model the driver executes … -/
+theorem ghost_state (ops : List Op) : (runG ({}, []) ops).1 = run {} ops := runG_fst ops _
+
+/-- … and logs exactly the successful commits of transactions with updates -/
+theorem ghost_log (g : State × List Logged) (tn : Nat) :
+    (stepG g (.commit tn)).2 =
+      match g.1.trans.find? (fun t => t.start == tn && t.active) with
+      | some T => if T.hasUpdates then logOf T (g.1.seq + 2) :: g.2 else g.2
+      | none => g.2 := rfl
+
+/-- the same at the commit point, in state form: when `T` (active, with updates) is about to
+commit, no write key of a committed `T'` still held with `T.start < T'.end` lies in a read range
+of `T`. -/
+theorem ck_serializable_commit (ops : List Op) (T T' : Tran) (e : Nat)
     (hT : T ∈ (run {} ops).trans) (hT' : T' ∈ (run {} ops).trans)
     (hact : T.active = true) (hupd : T.hasUpdates = true)
     (he : T'.end_ = some e) (hlt : T.start < e)
@@ -109,7 +123,7 @@ def demo : List Op :=
 example : (run {} demo).trans.map (·.start) = [5] := by decide
 example : (step (run {} (demo.take 4)) (.output 3 0 [[98]] [] [])).2 = .bool false := by decide
 example : ((run {} (demo.take 4)).trans.map fun t => (t.start, t.rc)) = [(3, true), (5, false)] := by decide
--- the hypotheses of ck_serializable_partial are met: ut3 writes `a` and commits at 7 while ut5
+-- the hypotheses of ck_serializable_commit are met: ut3 writes `a` and commits at 7 while ut5
 -- (started at 5 < 7, has updates, read `b`) is still active
 def demo2 : List Op :=
   [.start, .start, .output 3 0 [[97]] [] [], .output 5 0 [[99]] [] [], .read 5 0 0 [98] [98] [] [], .commit 3]
@@ -118,5 +132,8 @@ example : ((run {} demo2).trans.map fun t => (t.start, t.end_, t.hasUpdates, t.r
     [(3, some 7, true, false), (5, none, true, false)] := by decide
 example : ((run {} demo2).trans.map fun t => t.acts.map fun a => (a.reads.length, a.outs.length)) =
     [[(0, 1)], [(1, 1)]] := by decide
+-- ... and of ck_serializable: after ut5 commits too the log holds ut5 = [5,9] and ut3 = [3,7], 5 < 7 < 9
+example : ((runG ({}, []) (demo2 ++ [.commit 5])).2.map fun L =>
+    (L.start, L.end_, L.reads.length, L.writes.length)) = [(5, 9, 1, 1), (3, 7, 0, 1)] := by decide
 
 end Gsu.Props.C01
